@@ -675,3 +675,32 @@ def rule_markup_search(F, rep, rid, pred, where_txt):
         for c in markup_text_searches(g):
             rep.fail(rid, '%s|%s' % (g.short.split('::')[-1], render(c)[:50]), g.where(c), '%s searches XML text for markup with `%s`' % (g.short, render(c)[:60]))
     rep.ok(rid, 'scan', None, 'no text search for markup in %d functions of %s (fixture: 1 of 2 functions flagged, as expected)' % (n, where_txt))
+
+
+def rule_cursor_loops(F, rep, rid, pred, floor, where_txt):
+    """Sibling cursors (`while (node != nullptr) { ...; node = node->next(); }`) are advanced only inside their loop."""
+    from facts import AnalysisBroken
+    rep.rule(rid, 'in %s a cursor over sibling XML nodes/attributes is advanced (x = x->next()) only inside the loop that walks the siblings: an advance in front of the loop treats the FIRST sibling specially '
+                  '(e.g. steps over a leading relationship_ref), while the same kind of node further down the list is handled by the general case and rejected' % where_txt)
+    n = 0
+    for f in F.funcs.values():
+        if not pred(f):
+            continue
+        for L in f.walk():
+            if L.get('k') != 'While':
+                continue
+            curs = [x for x in walk(role(L, 'cond')) if x.get('k') == 'Ref' and x.get('dk') == 'local']
+            if not curs:
+                continue
+            d = curs[0]['d']
+            inside = {x['i'] for x in walk(L)}
+            adv = [a for a in f.walk() if ((a.get('k') == 'Call' and a.get('opc') == '=') or (a.get('k') == 'Bin' and a.get('op') == '=')) and a['c'][0].get('k') == 'Ref' and a['c'][0].get('d') == d
+                   and any(x.get('k') == 'Call' and x.get('fn') in ('next', 'nextSibling') and any(y.get('k') == 'Ref' and y.get('d') == d for y in walk(x)) for x in walk(a['c'][1]))]
+            if not any(a['i'] in inside for a in adv):
+                continue
+            n += 1
+            out = [a for a in adv if a['i'] not in inside and a.get('l', 0) < L.get('l', 0)]
+            rep.check(not out, rid, '%s|%s@%d' % (f.short.split('::')[-1], curs[0]['n'], sum(1 for x in f.walk() if x.get('k') == 'While' and x.get('l', 0) < L.get('l', 0))), f.where(L),
+                      '%s advances the cursor `%s` at line %s, before the loop that walks the siblings' % (f.short, curs[0]['n'], out[0].get('l') if out else ''), 'advanced inside the loop only')
+    if n < floor:
+        raise AnalysisBroken('%s: only %d sibling-cursor loops found in %s (%d confirmed)' % (rid, n, where_txt, floor))
